@@ -60,6 +60,23 @@ def handle : P String := do
     | "vox" => pure (showInts (mkVoxel xs))
     | "ctr" => pure (showRats (mkCenter xs))
     | _ => failure
+  | "hist" => do
+    -- hist <cs> <k> (touch | reset | origin <list rat> | dims <list rat>)*  ->  final dims | origin | coordinate(0) | opposite
+    let cs ← pCS; let k ← P.nat
+    let ops ← P.rep (do
+      let t ← P.tok
+      match t with
+      | "touch" => pure GeomOp.touch
+      | "reset" => pure GeomOp.resetOrigin
+      | "origin" => do let o ← P.list P.rat; pure (GeomOp.setOrigin o)
+      | "dims" => do let o ← P.list P.rat; pure (GeomOp.setDimensions o)
+      | _ => failure) k
+    P.done
+    pure (showExcept (fun x => x) (do
+      let c ← cs.applyOps ops
+      let z ← c.coordinate (List.replicate c.dim.toNat 0)
+      let o ← c.opposite
+      pure (showRats c.dims ++ " | " ++ showRats c.origin ++ " | " ++ showRats z ++ " | " ++ showRats o)))
   | "cvec" => do
     let cs ← pCS; let w ← P.list P.rat; P.done
     pure (showExcept showRats (cs.coordinateVector w))
